@@ -1028,7 +1028,7 @@ impl Prop for C04 {
     fn runs(&self, t: Tier) -> u64 {
         match t {
             Tier::Quick => 20_000,
-            Tier::Thorough => 1_000_000,
+            Tier::Thorough => 4_000_000,
         }
     }
     fn nontrivial_rule(&self) -> &'static str {
@@ -1063,7 +1063,7 @@ macro_rules! conc_prop {
             fn runs(&self, t: Tier) -> u64 {
                 match t {
                     Tier::Quick => 20_000,
-                    Tier::Thorough => 1_000_000,
+                    Tier::Thorough => 8_000_000,
                 }
             }
             fn nontrivial_rule(&self) -> &'static str {
